@@ -9,6 +9,7 @@ Local Open Scope list_scope.
 Section Ren.
   Variable V : Type.
   Variable bin : binop -> V -> V -> V.
+  Variable un : unop -> V -> V.
   Notation node := (node V).
 
   Section One.
@@ -22,6 +23,7 @@ Section Ren.
         NTuple ((fix go (ms : list (string * (nat * node))) : list (string * (nat * node)) :=
                    match ms with [] => [] | (k, (i, c)) :: r => (k, (i, ren c)) :: go r end) ms)
     | NBin o ln rn l r => NBin o ln rn (ren l) (ren r)
+    | NUn o nm c => NUn o nm (ren c)
     | NModel cls ctor attrs =>
         NModel cls ctor ((fix go (a : list (string * node)) : list (string * node) :=
                             match a with [] => [] | (k, c) :: r => (k, ren c) :: go r end) attrs)
@@ -53,7 +55,7 @@ Section Ren.
   (* ---- the walk of a renamed model: same paths, renamed parameters, same order ---- *)
   Lemma walk_ren (n : node) : walk V (ren n) = map second (walk V n).
   Proof.
-    induction n as [q|c|ms IH|o ln rn l r IHl IHr|cls ctor attrs IH|attrs IH] using (node_ind' V).
+    induction n as [q|c|ms IH|o ln rn l r IHl IHr|uo unm uc IHc|cls ctor attrs IH|attrs IH] using (node_ind' V).
     - reflexivity.
     - reflexivity.
     - cbn [ren walk]. rewrite ren_members_eq.
@@ -64,6 +66,7 @@ Section Ren.
     - cbn [ren walk]. destruct (String.eqb ln rn).
       + rewrite IHr. apply prefix_second.
       + rewrite map_app, IHl, IHr, !prefix_second. reflexivity.
+    - cbn [ren walk]. rewrite IHc. apply prefix_second.
     - cbn [ren walk]. rewrite ren_attrs_eq.
       induction attrs as [|[k c] attrs IHa]; [reflexivity|].
       inversion IH as [|? ? Hc Hr]; subst. simpl in Hc.
@@ -92,18 +95,19 @@ Section Ren.
   Qed.
 
   Lemma inst_ren (a : nat -> option V) (n : node) :
-    inst V bin a (ren n) = inst V bin (fun q => a (s q)) n.
+    inst V bin un a (ren n) = inst V bin un (fun q => a (s q)) n.
   Proof.
-    induction n as [q|c|ms IH|o ln rn l r IHl IHr|cls ctor attrs IH|attrs IH] using (node_ind' V).
+    induction n as [q|c|ms IH|o ln rn l r IHl IHr|uo unm uc IHc|cls ctor attrs IH|attrs IH] using (node_ind' V).
     - reflexivity.
     - reflexivity.
     - cbn [ren]. rewrite ren_members_eq. rewrite !inst_tuple. f_equal. f_equal. unfold member_vals. f_equal.
       unfold ren_members. rewrite map_map. apply map_ext_in. intros [k [i c]] Hin. simpl. f_equal.
       rewrite Forall_forall in IH. exact (IH _ Hin).
     - cbn [ren inst]. rewrite IHl, IHr. reflexivity.
+    - cbn [ren inst]. rewrite IHc. destruct uc; reflexivity.
     - cbn [ren inst]. rewrite ren_attrs_eq. rewrite !inst_attrs_map.
-      assert (M : map (fun kv => (fst kv, inst V bin a (snd kv))) (ren_attrs attrs)
-                  = map (fun kv => (fst kv, inst V bin (fun q => a (s q)) (snd kv))) attrs).
+      assert (M : map (fun kv => (fst kv, inst V bin un a (snd kv))) (ren_attrs attrs)
+                  = map (fun kv => (fst kv, inst V bin un (fun q => a (s q)) (snd kv))) attrs).
       { unfold ren_attrs. rewrite map_map. apply map_ext_in. intros [k c] Hin. simpl. f_equal.
         rewrite Forall_forall in IH. exact (IH _ Hin). }
       rewrite M. reflexivity.
@@ -115,7 +119,7 @@ Section Ren.
   (* ---- path resolution in a renamed model ---- *)
   Lemma prior_at_ren (n : node) : forall p, prior_at V p (ren n) = option_map s (prior_at V p n).
   Proof.
-    induction n as [q|c|ms IH|o ln rn l r IHl IHr|cls ctor attrs IH|attrs IH] using (node_ind' V); intro p.
+    induction n as [q|c|ms IH|o ln rn l r IHl IHr|uo unm uc IHc|cls ctor attrs IH|attrs IH] using (node_ind' V); intro p.
     - destruct p; reflexivity.
     - destruct p; reflexivity.
     - destruct p as [|k p]; [reflexivity|]. cbn [ren prior_at]. rewrite ren_members_eq.
@@ -124,6 +128,8 @@ Section Ren.
       destruct (String.eqb k k'); [apply Hc|apply IHms; exact Hr].
     - destruct p as [|k p]; [reflexivity|]. cbn [ren prior_at].
       destruct (String.eqb k rn); [apply IHr|]. destruct (String.eqb k ln); [apply IHl|reflexivity].
+    - destruct p as [|k p]; [reflexivity|]. cbn [ren prior_at].
+      destruct (String.eqb k unm); [apply IHc|reflexivity].
     - destruct p as [|k p]; [reflexivity|]. cbn [ren prior_at]. rewrite ren_attrs_eq.
       induction attrs as [|[k' c] attrs IHa]; [reflexivity|].
       inversion IH as [|? ? Hc Hr]; subst. simpl in Hc. cbn [ren_attrs map fst snd].
@@ -138,7 +144,7 @@ Section Ren.
   (* whatever a path resolves to is one of the model's parameters *)
   Lemma prior_at_in_ids (n : node) : forall p q, prior_at V p n = Some q -> In q (prior_ids V n).
   Proof.
-    induction n as [q0|c|ms IH|o ln rn l r IHl IHr|cls ctor attrs IH|attrs IH] using (node_ind' V); intros p q H.
+    induction n as [q0|c|ms IH|o ln rn l r IHl IHr|uo unm uc IHc|cls ctor attrs IH|attrs IH] using (node_ind' V); intros p q H.
     - destruct p; simpl in H; [|discriminate]. inversion H; subst. left; reflexivity.
     - destruct p; discriminate.
     - destruct p as [|k p]; [discriminate|]. cbn [prior_at] in H.
@@ -155,6 +161,9 @@ Section Ren.
       + rewrite map_app. apply in_or_app. unfold prefix_paths. rewrite !map_map. simpl.
         destruct (String.eqb k rn); [right; exact (IHr _ _ H)|].
         destruct (String.eqb k ln); [left; exact (IHl _ _ H)|discriminate].
+    - destruct p as [|k p]; [discriminate|]. cbn [prior_at] in H. unfold prior_ids. cbn [walk].
+      unfold prefix_paths. rewrite map_map. simpl.
+      destruct (String.eqb k unm); [exact (IHc _ _ H)|discriminate].
     - destruct p as [|k p]; [discriminate|]. cbn [prior_at] in H. unfold prior_ids. cbn [walk].
       induction attrs as [|[k' c] attrs IHa]; [discriminate|].
       inversion IH as [|? ? Hc Hr]; subst. simpl in Hc.
@@ -202,10 +211,10 @@ Section Ren.
   (* supplying the same value for each path yields equal instances *)
   Theorem inst_from_paths_ren (s : nat -> nat) (n : node) (pv : list (path * V)) :
     wf V n -> inj_on s (prior_ids V n) ->
-    inst_from_paths V bin (ren s n) pv = inst_from_paths V bin n pv.
+    inst_from_paths V bin un (ren s n) pv = inst_from_paths V bin un n pv.
   Proof.
     intros W Hi. unfold inst_from_paths. rewrite inst_ren.
-    apply (inst_ext V bin); [exact W|]. intros q Hq. apply path_args_ren; assumption.
+    apply (inst_ext V bin un); [exact W|]. intros q Hq. apply path_args_ren; assumption.
   Qed.
 
   (* ---- the number of free parameters ---- *)
@@ -261,13 +270,14 @@ Section Ren.
 
   Lemma ren_id (n : node) : ren (fun q => q) n = n.
   Proof.
-    induction n as [q|c|ms IH|o ln rn l r IHl IHr|cls ctor attrs IH|attrs IH] using (node_ind' V).
+    induction n as [q|c|ms IH|o ln rn l r IHl IHr|uo unm uc IHc|cls ctor attrs IH|attrs IH] using (node_ind' V).
     - reflexivity.
     - reflexivity.
     - cbn [ren]. rewrite ren_members_eq. f_equal. unfold ren_members.
       rewrite <- (map_id ms) at 2. apply map_ext_in. intros [k [i c]] Hin. simpl.
       rewrite Forall_forall in IH. pose proof (IH _ Hin) as E. simpl in E. rewrite E. reflexivity.
     - cbn [ren]. rewrite IHl, IHr. reflexivity.
+    - cbn [ren]. rewrite IHc. reflexivity.
     - cbn [ren]. rewrite ren_attrs_eq. f_equal. unfold ren_attrs.
       rewrite <- (map_id attrs) at 2. apply map_ext_in. intros [k c] Hin. simpl.
       rewrite Forall_forall in IH. pose proof (IH _ Hin) as E. simpl in E. rewrite E. reflexivity.
